@@ -267,3 +267,54 @@ def read_entry_points(wsd):
     for v in df["entry_points"]:
         out |= {int(x) for x in v}
     return out
+
+
+def node_call_events(root_dir, project, timeout=30):
+    """node as the oracle for the JavaScript rendering: runs the instrumented copy (every function body starts with
+    __in(<qualified name>, this), every call-site line sets __L = <line>) and returns events in the format of
+    python_call_events. The instrumented copy lives next to the analysed one under another name and is never analysed."""
+    import json
+    import subprocess
+    rel = project["main"]
+    qual_def = {d["qual"]: d for d in project["defs"]}
+    src = project["node_files"][rel]
+    if project["entry"]["mode"] == "method":
+        src += f"\n{project['entry']['name']}();\n"
+    src += "\nprocess.stdout.write(JSON.stringify(__E));\n"
+    p = os.path.join(os.path.dirname(root_dir), "node_run.js")
+    with open(p, "w") as f:
+        f.write(src)
+    try:
+        r = subprocess.run(["node", p], capture_output=True, text=True, timeout=timeout)
+    except Exception as e:      # noqa
+        return {}, f"node failed: {e!r}"
+    if r.returncode != 0:
+        return {}, f"node exit {r.returncode}: {r.stderr[-300:]}"
+    raw = json.loads(r.stdout or "[]")
+
+    def key(name):
+        if name == "<module>":
+            return (rel, "<module>")
+        d = qual_def.get(name)
+        return (rel, d["first_line"]) if d else (rel, "?" + name)
+    events = {}
+    entry_name = project["entry"]["name"]
+    for name, cn, chain in raw:
+        callee = key(name)
+        caller = key(chain[0][0])
+        line = chain[0][1]
+        if project["entry"]["mode"] == "method":
+            if chain[0][0] == "<module>":
+                continue               # the harness calling the configured entry function
+            chain = [c for c in chain if c[0] != "<module>"]
+            root = key(chain[-1][0])
+        else:
+            root = (rel, "<module>")
+        k = (root, caller, line, callee)
+        ent = events.setdefault(k, {"n": 0, "recv": set(), "stacks": set()})
+        ent["n"] += 1
+        if cn:
+            ent["recv"].add(cn)
+        if len(ent["stacks"]) < 8:
+            ent["stacks"].add(tuple((rel, c[1], key(c[0])) for c in chain))
+    return events, None
